@@ -301,7 +301,7 @@ def children(x):
     return [(('i', i), v) for i, v in enumerate(x)]
   if isinstance(x, dict):
     return [(('k', k), v) for k, v in x.items()]
-  if hasattr(x, '__vchildren__'):
+  if hasattr(x, '__vchildren__') and not isinstance(x, type):
     return list(x.__vchildren__())
   return []
 
